@@ -39,6 +39,9 @@ pub fn verif_dir() -> String { std::env::var("VERIF_DIR").unwrap_or_else(|_| "/v
 /// where evidence and replay files go (differs from verif_dir() only when the checks run against a copy of the repository)
 pub fn out_dir() -> String { std::env::var("VERIF_OUT_DIR").unwrap_or_else(|_| verif_dir()) }
 
+/// wall clock caps are lifted when the lists of known inputs are generated (they must come from COMPLETE enumerations)
+pub fn cap_secs(s: u64) -> u64 { if std::env::var("VERIF_KNOWN_GEN").is_ok() || std::env::var("VERIF_NO_CAP").is_ok() { 36_000 } else { s } }
+
 pub fn load_known() -> Vec<Known> {
     let path = format!("{}/KNOWN_FINDINGS.txt", verif_dir());
     let mut out = vec![];
